@@ -1,14 +1,14 @@
 SPECIFICATION Spec
 CONSTANTS
   MaxLen = 4
-  Symbols = {1, 2, 3, 4, 5, 7, 9, 10, 11}
+  Symbols = {1, 2, 3, 4, 5, 9, 10, 11}
   SegIMs = {2}
   TofIMs = {2}
-  FrameIds = {0, 1, 2, 4, 5}
-  StoreIds = {1, 2, 3}
-  NStores = {0, 1, 2}
+  FrameIds = {0, 2, 4, 5}
+  StoreIds = {1, 3}
+  NStores = {0, 2}
   Freshes = {FALSE}
-  MaxSegs = {0, 1}
+  MaxSegs = {1}
   FixEmpty = TRUE
 INVARIANTS InvBatches InvOut InvPartition InvPos InvCount
 CHECK_DEADLOCK FALSE
